@@ -36,6 +36,9 @@ ASSUMPTIONS = [
     'dec2hms on negative input: the theorem is about the wrapped binary64 value x + 360 (one more rounding, <= 2^-45 deg)',
     'the 1e-9 deg agreement of gcd with the vector formula in binary64 (0..180 deg, incl. exactly and nearly antipodal pairs) is a '
     'round-off statement, decided by execution only (strict: no tolerated input class)',
+    'bear is compared with the 80-bit position angle for separations 1e-9 .. 179.9 deg and |dec1| < 89.999 within '
+    'max(1e-9, 8 (ulp(ra) + ulp(dec)) / sin(sep)) deg: binary64 coordinates fix the offsets between two points only to an ulp of the '
+    'coordinates (constant measured on the unmodified code: <= 2.5); within 0.1 deg of the antipode and at the poles bear is not compared',
 ]
 HEADER = ("From Coq Require Import Reals.\nFrom Interval Require Import Tactic.\n"
           "From Aegean Require Import Lib.RBase Gen.Sphere Lib.Sphere.\nOpen Scope R_scope.")
@@ -45,7 +48,9 @@ IMPORTS_S = ("From Coq Require Import ZArith String PrimFloat.\nFrom Aegean Requ
              "Open Scope float_scope.\n")
 LD = np.longdouble
 PI_LD = LD('3.14159265358979323846264338327950288')
-BEAR_LIMIT = 179.9          # the bearing is undefined at the antipode (and at separation 0): it is compared for 1e-3 <= sep <= 179.9
+BEAR_LIMIT = 179.9          # the bearing is undefined at the antipode (and at separation 0): it is compared for 1e-9 <= sep <= 179.9
+BEAR_MIN = 1e-9             # lower end of the property's domain of separations
+BEAR_C = 8.0                # measured on the unmodified code over 1.2e5 pairs (1e-9 .. 179.9 deg, RA wrap, |dec| < 89.999): <= 2.5
 # nearly and exactly antipodal pairs (the haversine form returned 180.0 for the first one: 1e-6 deg off)
 ANTIPODES = [(0.0, 0.0, 179.999999, 0.0), (0.0, 0.0, 180.0 - 1e-7, 0.0), (0.0, 0.0, 180.0 - 1e-8, 0.0), (0.0, 0.0, 180.0 - 1e-9, 0.0),
              (0.0, 0.0, 180.0, 0.0), (10.0, 20.0, 190.0, -20.0), (0.0, 90.0, 77.0, -90.0), (33.0, -90.0, 200.0, 90.0),
@@ -87,6 +92,17 @@ def angdiff(a, b):
     return min(d, 360.0 - d)
 
 
+def bear_tol(p, sep, cosmin=1.0):
+    """tolerance (deg) for a position angle at separation `sep` (deg): the coordinates are binary64, so the offsets between the
+    two points are only known / computed to ulp(coordinate); relative to the separation that is an angle of
+    (ulp(ra) + ulp(dec)) / sin(sep) (ulp in degrees over the separation in radians = degrees).  BEAR_C is the measured constant of
+    the unmodified code with a margin of 3; the floor is the property's 1e-9 deg.  A wrong quadrant or a dropped bearing at
+    2e-9 deg is off by tens of degrees against a tolerance of ~1e-3 deg."""
+    ra1, dec1, ra2, dec2 = p
+    u = math.ulp(max(abs(ra1), abs(ra2))) + math.ulp(max(abs(dec1), abs(dec2)))
+    return max(1e-9, BEAR_C * u / (math.sin(math.radians(sep)) * cosmin))
+
+
 # ------------------------------------------------------------------------------------------
 # the property on the implementation (executable oracle); each returns None or a message
 def pair_problem(p):
@@ -102,12 +118,13 @@ def pair_problem(p):
     if not abs(g - ref) <= 1e-9:
         return (f'gcd{p} = {g!r} but the angle between the unit vectors (atan2(|u x v|, u.v), 80-bit) is {ref!r}: '
                 f'difference {g - ref:.3e} deg > 1e-9')
-    if 1e-3 <= ref <= BEAR_LIMIT and abs(dec1) < 89.999:
+    if BEAR_MIN <= ref <= BEAR_LIMIT and abs(dec1) < 89.999:
         b = float(A.bear(ra1, dec1, ra2, dec2))
         pa = ref_pa(ra1, dec1, ra2, dec2)
-        tol = 1e-9 + 1e-13 / math.sin(math.radians(ref))
-        if angdiff(b, pa) > tol:
-            return f'bear{p} = {b!r} but the position angle in the (north, east) frame at point 1 is {pa!r}'
+        tol = bear_tol(p, ref)
+        if not angdiff(b, pa) <= tol:
+            return (f'bear{p} = {b!r} but the position angle in the (north, east) frame at point 1 (80-bit) is {pa!r}: separation '
+                    f'{ref:.3e} deg, difference {angdiff(b, pa):.3e} deg > tolerance {tol:.3e} deg')
     return None
 
 
@@ -139,11 +156,13 @@ def translate_problem(q):
         return f'translate{q} = ({ro!r}, {do!r}) lies at distance {ref!r} (vector formula), not r = {r!r}'
     if abs(g - r) > tol:
         return f'gcd from the start to translate{q} = ({ro!r}, {do!r}) is {g!r}, not r = {r!r}'
-    if 1e-3 <= r <= BEAR_LIMIT and abs(dec) < 89.999 and abs(do) < 89.999:
+    if BEAR_MIN <= r <= BEAR_LIMIT and ref >= BEAR_MIN and abs(dec) < 89.999 and abs(do) < 89.999:
         pa = ref_pa(ra, dec, ro, do)
         b = float(A.bear(ra, dec, ro, do))
-        # x = cos r - sin dec sin dec_out cancels to eps; relative to |(x, y)| = cos dec cos dec_out sin(dlon)
-        tol = 1e-9 + 1e-13 / (math.sin(math.radians(r)) * min(math.cos(math.radians(dec)), cdo))
+        # x = cos r - sin dec sin dec_out cancels to eps; relative to |(x, y)| = cos dec cos dec_out sin(dlon); the destination is
+        # rounded to binary64 (bear_tol: measured constant of the unmodified code <= 2.1 with this denominator)
+        cmin = min(math.cos(math.radians(dec)), cdo)
+        tol = max(1e-9 + 1e-13 / (math.sin(math.radians(r)) * cmin), bear_tol((ra, dec, ro, do), r, cmin))
         if angdiff(pa, th) > tol:
             return f'translate{q} = ({ro!r}, {do!r}) is seen at position angle {pa!r} from the start, not theta = {th!r}'
         if angdiff(b, th) > tol:
@@ -261,6 +280,32 @@ def gen_pairs(rng, n):
             if rng.random() < 0.5:
                 r2 = r2 % 360.0
         d2 = max(-90.0, min(90.0, d2))
+        out.append((float(ra), float(dec), float(r2), float(d2)))
+    return out
+
+
+TINY_SEPS = [1.05e-9, 2e-9, 5e-9, 1e-8, 2e-8, 5e-8, 1e-7, 2e-7, 5e-7, 1e-6]
+KNOWN_TINY = [(10.0, 20.0, 10.0 + 2e-9, 20.0 + 2e-9), (10.0, 20.0, 10.0 + 1e-9, 20.0 - 1e-9), (359.9999999, -45.0, 359.9999999 - 5e-9, -45.0),
+              (200.0, 60.0, 200.0 + 4e-9, 60.0), (0.0, 0.0, 1.5e-9, 1.5e-9), (123.0, -85.0, 123.0 - 3e-8, -85.0 - 1e-9)]
+
+
+def gen_tiny_pairs(rng, n):
+    """pairs 1e-9 .. 1e-6 deg apart at several position angles, latitudes and right ascensions (incl. RA wrap), and the same
+    offsets seen from far away on the other side (separation 180 - BEAR_LIMIT .. : bear is compared up to BEAR_LIMIT only)"""
+    out = list(KNOWN_TINY)
+    k = 0
+    while len(out) < n:
+        sep = TINY_SEPS[k % len(TINY_SEPS)]
+        pa = [43.2, 90.0, 135.0, 180.0, 225.0, 270.0, 315.0, 359.0, 1.0, rng.uniform(0, 360)][(k // len(TINY_SEPS) + k) % 10]
+        dec = rng.choice([0.0, 20.0, -45.0, 60.0, 80.0, -85.0, 89.0, 1e-6, rng.uniform(-89.9, 89.9)])
+        ra = rng.choice([0.0, 10.0, 123.456, 200.0, 359.9999999, rng.uniform(0, 360)])
+        d2 = dec + sep * math.cos(math.radians(pa))
+        r2 = ra + sep * math.sin(math.radians(pa)) / math.cos(math.radians(dec))
+        k += 1
+        if abs(d2) > 90:
+            continue
+        if k % 7 == 0:      # RA wrap
+            r2 = r2 - 360.0 if r2 > 180 else r2 + 360.0
         out.append((float(ra), float(dec), float(r2), float(d2)))
     return out
 
@@ -413,7 +458,9 @@ def geometry_goals(pairs, trans):
 def run_geometry(ctx, model_ok, quick):
     rng = ctx.rng
     A = at()
-    pairs = gen_pairs(rng, 74 if quick else 420)
+    tiny = gen_tiny_pairs(rng, 120 if quick else 1200)
+    # the first tiny pairs (the fixed ones + two random) also go through the certified correspondence
+    pairs = gen_pairs(rng, 74 if quick else 420) + tiny[:8 if quick else 40]
     trans = gen_translates(rng, 50 if quick else 300)
     # ---- certified correspondence
     if model_ok:
@@ -421,8 +468,16 @@ def run_geometry(ctx, model_ok, quick):
         bad = vlib.coq_certify(ctx, HEADER, goals, shard=12 if quick else 30)
         for k, err in bad[:4]:
             what, a, v = metas[k] if 0 <= k < len(metas) else ('?', None, None)
+            # a lemma that fails because the implementation's value is wrong (not the model): the independent 80-bit formulas
+            # decide, with the oracle's tolerance; then the case is a concrete failing input
+            viol = None
+            if a is not None:
+                msg = translate_problem(tuple(a)) if what == 'translate' else pair_problem(tuple(a))
+                if msg:
+                    viol = {'kind': 'translate' if what == 'translate' else 'pair', 'input': list(a), 'function': what,
+                            'implementation_value': v, 'what': f'angle_tools.{what}{tuple(a)} = {v!r}; ' + msg}
             ctx.mismatch(f'certified correspondence: angle_tools.{what} differs from the generated Coq definition', {'args': a},
-                         impl=v, model=err[-300:])
+                         impl=v, model=err[-300:], is_violation=viol)
         ctx.oblige(f'certified correspondence: {len(goals)} interval lemmas (gcd and bear on {len(pairs)} coordinate pairs, translate on '
                    f'{len(trans)} cases)', not bad, f'{len(bad)} shards failed')
         ctx.traces += len(goals)
@@ -439,6 +494,27 @@ def run_geometry(ctx, model_ok, quick):
             ctx.mismatch('gcd / bear against the vector formulas', {'pair': p}, impl=msg, is_violation={'kind': 'pair', 'input': list(p), 'what': msg})
     ctx.oblige(f'oracle: gcd symmetric, in [0,180], within 1e-9 deg of atan2(|u x v|, u.v) for every separation 0..180 deg (incl. exactly '
                f'and nearly antipodal pairs), bear = position angle in the (north, east) frame, on {len(pairs)} pairs', nbad == 0)
+    # ---- bearing at the lower end of the separations (1e-9 .. 1e-6 deg): scalar and array calls against the 80-bit position angle
+    nbad = 0
+    ta_ = np.array(tiny)
+    bt = A.bear(ta_[:, 0], ta_[:, 1], ta_[:, 2], ta_[:, 3])
+    for k, p in enumerate(tiny):
+        ref = ref_sep(*p)
+        ctx.case(key=('tiny', p), bucket='pair bear sep<2e-9' if ref < 2e-9 else 'pair bear sep<1e-8' if ref < 1e-8 else 'pair bear sep<=1e-6',
+                 sample={'ra1,dec1,ra2,dec2': p, 'bear': float(A.bear(*p)), 'position angle (80-bit)': ref_pa(*p),
+                         'tolerance': bear_tol(p, ref) if ref > 0 else None} if k in (0, 7) else None)
+        msg = pair_problem(p)
+        if not msg and BEAR_MIN <= ref and abs(p[1]) < 89.999 and not angdiff(float(bt[k]), ref_pa(*p)) <= bear_tol(p, ref):
+            msg = (f'array call of bear gives {float(bt[k])!r} for {p} but the position angle in the (north, east) frame at point 1 '
+                   f'(80-bit) is {ref_pa(*p)!r} (separation {ref:.3e} deg, tolerance {bear_tol(p, ref):.3e} deg)')
+        if msg:
+            nbad += 1
+            if nbad <= 3:
+                ctx.mismatch('bear against the position-angle formula at separations 1e-9 .. 1e-6 deg', {'pair': p}, impl=msg,
+                             is_violation={'kind': 'pair', 'input': list(p), 'what': msg})
+    ctx.oblige(f'oracle: bear = position angle in the (north, east) frame within max(1e-9, {BEAR_C:g} (ulp(ra) + ulp(dec)) / sin(sep)) deg on '
+               f'{len(tiny)} pairs 1e-9 .. 1e-6 deg apart (10 position angles, latitudes 0 .. 89, RA wrap; scalar and array calls)',
+               nbad == 0, f'{nbad} pairs fail')
     nbad = 0
     pts = [(p[0], p[1]) for p in pairs] + [(p[2], p[3]) for p in pairs]
     ntri = 200 if quick else 3000
@@ -680,7 +756,7 @@ def search(ctx):
         if m:
             return {'kind': 'dec2hms', 'input': float(x).hex(), 'what': m}
     while time.time() - t0 < 60:
-        for p in gen_pairs(rng, 200):
+        for p in gen_pairs(rng, 200) + gen_tiny_pairs(rng, 300):
             m = pair_problem(p)
             if m:
                 return {'kind': 'pair', 'input': list(p), 'what': m}
